@@ -521,10 +521,14 @@ def run(ctx: Ctx) -> None:
         whole = [w for w in whole if os.path.exists(
             os.path.join(VERIF, "props", w.lower() + ".py"))]
         per = max(2, ctx.jobs // max(1, len(whole)))
+        # the heavy alphabets get more workers (relative cost measured)
+        weight = {"C06": 8, "C05": 6, "C15": 3, "C02": 4, "C14": 4,
+                  "C07": 3, "C08": 3}
         for w in whole:
             env, cdir = _child_env(w)
             env["VERIF_EVIDENCE_DIR"] = os.path.join(tmp, "ev_" + w)
-            env["VERIF_JOBS"] = str(per)
+            env["VERIF_JOBS"] = str(max(1, min(ctx.jobs, weight.get(
+                w, per) * ctx.jobs // 16)) if ctx.jobs >= 8 else per)
             p = subprocess.Popen(
                 [sys.executable, os.path.join(VERIF, "check.py"), w,
                  "--tier", "quick"], env=env, stdout=subprocess.PIPE,
